@@ -69,4 +69,137 @@ theorem confMap_sub (conf : List BConf) : ∀ c ∈ confMap conf, c ∈ conf := 
       · simp at hd; subst hd; exact hl _ List.mem_cons_self
   exact gen conf [] (by simp) (fun c hc => hc)
 
+theorem rrUpdate_release (old : List Backend) (conf : List BConf) (h0 : ∀ o ∈ old, o.released = 0) :
+    (∀ b ∈ (rrUpdate old conf).1, b.released = 0) ∧ (∀ b ∈ (rrUpdate old conf).2, b.released = 1) := by
+  obtain ⟨h1, h2, _, _⟩ := updLoop_spec old (confMap conf)
+  unfold rrUpdate
+  simp only []
+  refine ⟨fun b hb => ?_, fun b hb => ?_⟩
+  · rcases List.mem_append.mp hb with hb | hb
+    · obtain ⟨o, ho, w, rfl⟩ := h1 b hb
+      exact h0 o ho
+    · obtain ⟨c, _, rfl⟩ := List.mem_map.mp hb
+      rfl
+  · obtain ⟨o, ho, rfl⟩ := h2 b hb
+    simp [rel, h0 o ho]
+
+/-- every backend of the cluster is unreleased -/
+def ClOk (c : Cluster) : Prop := ∀ s ∈ c.subs, ∀ b ∈ s.backs, b.released = 0
+
+theorem mem_tableObjs {st : St} {b : Backend} :
+    b ∈ tableObjs st ↔ ∃ c ∈ st.clusters, ∃ s ∈ c.subs, b ∈ s.backs := by
+  simp [tableObjs, List.mem_flatMap]
+
+theorem gslbReload_ok (c : Cluster) (gc : List (String × Int)) (h : ClOk c) :
+    ClOk (gslbReload c gc).1 ∧ ∀ b ∈ (gslbReload c gc).2.1, b.released = 1 := by
+  unfold gslbReload
+  split
+  · exact ⟨h, by simp⟩
+  · simp only []
+    refine ⟨fun s hs b hb => ?_, fun b hb => ?_⟩
+    · rcases List.mem_append.mp (List.mem_mergeSort.mp hs) with hs | hs
+      · obtain ⟨o, ho, hso⟩ := List.mem_filterMap.mp hs
+        cases hl : gc.lookup o.name with
+        | none => simp [hl] at hso
+        | some w =>
+          simp [hl] at hso
+          subst hso
+          exact h o ho b hb
+      · obtain ⟨p, _, rfl⟩ := List.mem_map.mp hs
+        simp at hb
+    · obtain ⟨s, hs, hbs⟩ := List.mem_flatMap.mp hb
+      obtain ⟨o, ho, rfl⟩ := List.mem_map.mp hs
+      have ho1 := (List.mem_filter.mp ho).1
+      simp only [relSub] at hbs
+      obtain ⟨x, hx, rfl⟩ := List.mem_map.mp hbs
+      simp [rel, h o ho1 x hx]
+
+theorem backendReload_ok (c : Cluster) (cb : List (String × List BConf)) (h : ClOk c) :
+    ClOk (backendReload c cb).1 ∧ ∀ b ∈ (backendReload c cb).2, b.released = 1 := by
+  unfold backendReload
+  simp only [List.map_map]
+  refine ⟨fun s hs b hb => ?_, fun b hb => ?_⟩
+  · obtain ⟨o, ho, rfl⟩ := List.mem_map.mp hs
+    simp only [Function.comp] at hb
+    cases hl : cb.lookup o.name with
+    | none => simp only [hl] at hb; exact h o ho b hb
+    | some conf =>
+      simp only [hl] at hb
+      exact (rrUpdate_release o.backs conf (h o ho)).1 b hb
+  · obtain ⟨x, hx, hbx⟩ := List.mem_flatMap.mp hb
+    obtain ⟨o, ho, rfl⟩ := List.mem_map.mp hx
+    cases hl : cb.lookup o.name with
+    | none => simp [hl] at hbx
+    | some conf =>
+      simp only [hl] at hbx
+      exact (rrUpdate_release o.backs conf (h o ho)).2 b hbx
+
+theorem reload_ok (st : St) (g : GslbConf) (bc : TableConf) (h : ReleaseOk st) :
+    ReleaseOk (balTableReload st g bc).st := by
+  obtain ⟨ht, hg⟩ := h
+  have hcl : ∀ c ∈ st.clusters, ClOk c := fun c hc s hs b hb => ht b (mem_tableObjs.mpr ⟨c, hc, s, hs, hb⟩)
+  -- the cluster every gslb entry starts from
+  have hc0 : ∀ (n : String), ClOk ((st.clusters.find? fun c => c.name == n).getD { name := n, subs := [] }) := by
+    intro n
+    cases hf : st.clusters.find? (fun c => c.name == n) with
+    | none => intro s hs; simp at hs
+    | some c => exact hcl c (List.mem_of_find?_eq_some hf)
+  unfold balTableReload
+  simp only []
+  refine ⟨fun b hb => ?_, fun b hb => ?_⟩
+  · obtain ⟨c, hc, s, hs, hbs⟩ := mem_tableObjs.mp hb
+    simp only [List.map_map] at hc
+    obtain ⟨p, _, rfl⟩ := List.mem_map.mp hc
+    simp only [Function.comp] at hs
+    have h1 := (gslbReload_ok _ p.2 (hc0 p.1)).1
+    split at hs
+    · exact (backendReload_ok _ _ h1).1 s hs b hbs
+    · exact h1 s hs b hbs
+  · simp only [List.mem_append, List.mem_flatMap] at hb
+    rcases hb with (hb | hb | hb) | hb
+    · exact hg b hb
+    · obtain ⟨x, hx, hbx⟩ := hb
+      obtain ⟨p, _, rfl⟩ := List.mem_map.mp hx
+      exact (gslbReload_ok _ p.2 (hc0 p.1)).2 b hbx
+    · obtain ⟨c, hc, s, hs, hbs⟩ := hb
+      obtain ⟨x, hx, rfl⟩ := List.mem_map.mp hbs
+      simp [rel, hcl c (List.mem_filter.mp hc).1 s hs x hx]
+    · obtain ⟨x, hx, hbx⟩ := hb
+      simp only [List.map_map] at hx
+      obtain ⟨p, _, rfl⟩ := List.mem_map.mp hx
+      simp only [Function.comp] at hbx
+      have h1 := (gslbReload_ok _ p.2 (hc0 p.1)).1
+      split at hbx
+      · exact (backendReload_ok _ _ h1).2 b hbx
+      · simp at hbx
+
+theorem init_ok (g : GslbConf) (bc : TableConf) : ReleaseOk (balTableInit g bc).st := by
+  unfold balTableInit
+  simp only []
+  split
+  · refine ⟨fun b hb => ?_, by simp⟩
+    obtain ⟨c, hc, s, hs, hbs⟩ := mem_tableObjs.mp hb
+    obtain ⟨x, hx, rfl⟩ := List.mem_map.mp hc
+    obtain ⟨p, _, rfl⟩ := List.mem_map.mp (List.mem_filter.mp hx).1
+    obtain ⟨q, _, rfl⟩ := List.mem_map.mp (List.mem_mergeSort.mp hs)
+    simp at hbs
+  · refine ⟨fun b hb => ?_, by simp⟩
+    obtain ⟨c, hc, s, hs, hbs⟩ := mem_tableObjs.mp hb
+    simp only [List.map_map] at hc
+    obtain ⟨x, hx, rfl⟩ := List.mem_map.mp hc
+    obtain ⟨p, _, rfl⟩ := List.mem_map.mp (List.mem_filter.mp hx).1
+    simp only [Function.comp] at hs
+    have hempty : ∀ s ∈ ((p.2.map fun q => ({ name := q.1, weight := q.2, backs := [] } : Sub)).mergeSort subLe), s.backs = [] := by
+      intro s hs
+      obtain ⟨q, _, rfl⟩ := List.mem_map.mp (List.mem_mergeSort.mp hs)
+      rfl
+    split at hs
+    · obtain ⟨s0, hs0, rfl⟩ := List.mem_map.mp hs
+      unfold initSub at hbs
+      split at hbs
+      · obtain ⟨cf, _, rfl⟩ := List.mem_map.mp hbs
+        rfl
+      · rw [hempty s0 hs0] at hbs; simp at hbs
+    · rw [hempty s hs] at hbs; simp at hbs
+
 end BfeVerif.C09
